@@ -9,13 +9,20 @@
 //!       framing, and (for packet types whose body serialisation is the identity) a body equal to the
 //!       framed body. `Message::from_bytes` must give the reference payload.
 //!  * I  illegal framings: the declared packet must never come back `Ok`; an `Err` item must appear.
+//!  * IC composed entry points: reference-framed certificates, keys, key rings, signatures and
+//!       messages cut at every offset, through every composed parser entry point: a cut inside a
+//!       packet (body shorter than declared) must surface an error, never an object made of the
+//!       packets in front of the cut; the uncut stream must give the reference packets.
 //!  * W  writer: every stream written by `MessageBuilder`/`to_bytes` is deframed by the reference
 //!       (`rfc::frame::deframe` + `check_written`), recursively through compression and (with the
 //!       session key, by the reference SEIPD decryptors) encryption; literal body == payload.
 
 use std::io::{BufRead, BufReader, Read};
 
-use pgp::composed::{Deserializable, Message, MessageBuilder, SignedSecretKey};
+use pgp::composed::{
+    Any, CleartextSignedMessage, Deserializable, DetachedSignature, Message, MessageBuilder, PublicOrSecret, SignedPublicKey,
+    SignedSecretKey,
+};
 use pgp::crypto::aead::{AeadAlgorithm, ChunkSize};
 use pgp::crypto::hash::HashAlgorithm;
 use pgp::crypto::sym::SymmetricKeyAlgorithm;
@@ -1517,6 +1524,738 @@ fn family_illegal(ctx: &mut Ctx) {
 }
 
 // ------------------------------------------------------------------------------------------------
+// Family IC: reference-framed packet streams cut at every offset, read through every composed
+// entry point that consumes a packet stream (certificates, secret keys, key rings, detached
+// signatures, the signature block of cleartext messages, messages; binary, armored and
+// auto-detecting variants, single and many).
+//
+// The reference framer knows where every packet starts, where its body starts and where it ends.
+// A cut inside a packet whose header is complete leaves a body that is shorter than its declared
+// length (an illegal framing): whatever composed parser reads the stream has to surface an error;
+// it must never hand out only the objects / packets in front of the cut as if the stream ended
+// there. A cut exactly on a packet boundary is a legal, shorter stream: nothing is demanded but
+// "no packet that is not in the prefix". A cut inside the length octets of a header ends
+// PacketParser silently (documented by the library, see assumptions): same demand as a boundary.
+
+type Pkts = Vec<(u8, Vec<u8>)>;
+
+#[derive(Clone, Debug)]
+struct Lay {
+    tag: u8,
+    start: usize,
+    body: usize,
+    end: usize,
+    form: &'static str,
+    obj: usize,
+    /// offsets at which the data of a partial chunk ends
+    chunk_edges: Vec<usize>,
+}
+
+struct Laid {
+    stream: Vec<u8>,
+    pk: Vec<Lay>,
+}
+
+#[derive(Clone, Copy, Debug, PartialEq, Eq)]
+enum Cut {
+    /// packets 0..k are complete, nothing of packet k is present
+    Boundary(usize),
+    /// inside the header (type octet present, length octets incomplete) of packet k
+    Header(usize),
+    /// header of packet k complete, at least one declared body octet (or chunk) missing
+    Body(usize),
+    Uncut,
+}
+
+fn lay_out(pkts: &[(u8, Vec<u8>, usize)], forms: &[LenForm]) -> Option<Laid> {
+    let mut stream = vec![];
+    let mut pk = vec![];
+    for ((tag, body, obj), f) in pkts.iter().zip(forms) {
+        let enc = frame(*tag, body, f)?;
+        let start = stream.len();
+        let (body_off, chunk_edges) = match f {
+            LenForm::Partial(seq, _) => {
+                let mut pos = start + 2;
+                let mut e = vec![];
+                for (i, c) in seq.iter().enumerate() {
+                    pos += *c as usize;
+                    e.push(pos);
+                    if i + 1 < seq.len() {
+                        pos += 1;
+                    }
+                }
+                (start + 2, e)
+            }
+            _ => (start + enc.len() - body.len(), vec![]),
+        };
+        stream.extend(&enc);
+        pk.push(Lay { tag: *tag, start, body: body_off, end: stream.len(), form: form_class(f), obj: *obj, chunk_edges });
+    }
+    Some(Laid { stream, pk })
+}
+
+impl Laid {
+    fn classify(&self, c: usize) -> Cut {
+        if c >= self.stream.len() {
+            return Cut::Uncut;
+        }
+        for (k, p) in self.pk.iter().enumerate() {
+            if c < p.end {
+                return if c == p.start {
+                    Cut::Boundary(k)
+                } else if c < p.body {
+                    Cut::Header(k)
+                } else {
+                    Cut::Body(k)
+                };
+            }
+        }
+        Cut::Uncut
+    }
+
+    /// every offset in headers and short bodies; in long bodies both ends, an even spread, the
+    /// surroundings of partial chunk edges and some random offsets (all offsets when `all`)
+    fn cut_offsets(&self, all: bool, rng: &mut impl Rng) -> Vec<usize> {
+        let mut v = vec![];
+        for p in &self.pk {
+            v.push(p.start);
+            v.extend(p.start + 1..p.body);
+            let blen = p.end - p.body;
+            if all || blen <= 96 {
+                v.extend(p.body..p.end);
+            } else {
+                v.extend(p.body..p.body + 8);
+                v.extend(p.end - 8..p.end);
+                for i in 1..16 {
+                    v.push(p.body + blen * i / 16);
+                }
+                for _ in 0..8 {
+                    v.push(rng.gen_range(p.body..p.end));
+                }
+                for e in &p.chunk_edges {
+                    for d in 0..8usize {
+                        let c = e + d;
+                        if c > p.body + 1 && c - 1 < p.end {
+                            v.push(c - 1);
+                        }
+                    }
+                }
+            }
+        }
+        v.sort_unstable();
+        v.dedup();
+        v
+    }
+}
+
+fn tag_class(tag: u8) -> &'static str {
+    match tag {
+        5 | 6 | 7 | 14 => "key",
+        2 => "signature",
+        13 | 17 => "user",
+        1 | 3 => "session-key",
+        4 => "one-pass",
+        8 | 9 | 11 | 18 | 20 => "data",
+        _ => "other",
+    }
+}
+
+/// packets the composed parsers skip by design
+fn skipped(tag: u8) -> bool {
+    tag == 10 || tag == 21
+}
+
+fn is_subsequence(got: &Pkts, of: &Pkts) -> bool {
+    let mut it = of.iter();
+    got.iter().all(|g| it.any(|o| o == g))
+}
+
+#[derive(Default)]
+struct Outcome {
+    /// per object handed out: the packets it is made of (its own serialisation, deframed by the
+    /// reference), or the error
+    items: Vec<Result<Pkts, String>>,
+    bad_rewrite: Option<String>,
+}
+
+fn short_err(e: &pgp::errors::Error) -> String {
+    let s = e.to_string();
+    s.chars().take(160).collect()
+}
+
+fn obj_packets<T: Serialize>(t: &T) -> Result<Pkts, String> {
+    let b = t.to_bytes().map_err(|e| format!("to_bytes: {e}"))?;
+    deframe(&b).map(|p| raw_list(&p)).map_err(|e| format!("re-serialisation does not deframe: {e}"))
+}
+
+fn cleartext_packets(c: &CleartextSignedMessage) -> Result<Pkts, String> {
+    let mut out = vec![];
+    for s in c.signatures() {
+        out.extend(obj_packets(&Packet::from(s.clone()))?);
+    }
+    Ok(out)
+}
+
+impl Outcome {
+    fn push_pkts(&mut self, r: Result<Result<Pkts, String>, String>) {
+        match r {
+            Ok(Ok(p)) => self.items.push(Ok(p)),
+            Ok(Err(e)) => {
+                self.bad_rewrite.get_or_insert(e);
+                self.items.push(Ok(vec![]));
+            }
+            Err(e) => self.items.push(Err(e)),
+        }
+    }
+    fn push<T: Serialize>(&mut self, r: pgp::errors::Result<T>) {
+        self.push_pkts(r.map(|t| obj_packets(&t)).map_err(|e| short_err(&e)));
+    }
+    fn has_err(&self) -> bool {
+        self.items.iter().any(|i| i.is_err())
+    }
+    fn ok_packets(&self) -> Pkts {
+        self.items.iter().filter_map(|i| i.as_ref().ok()).flatten().cloned().collect()
+    }
+    fn short(&self) -> String {
+        self.items
+            .iter()
+            .map(|i| match i {
+                Ok(p) => format!("Ok({} packets: tags {:?})", p.len(), p.iter().map(|x| x.0).collect::<Vec<_>>()),
+                Err(e) => format!("Err({e})"),
+            })
+            .collect::<Vec<_>>()
+            .join(", ")
+    }
+}
+
+fn one<T: Serialize>(r: pgp::errors::Result<T>) -> Outcome {
+    let mut o = Outcome::default();
+    o.push(r);
+    o
+}
+
+fn many<'a, T: Serialize>(r: pgp::errors::Result<Box<dyn Iterator<Item = pgp::errors::Result<T>> + 'a>>) -> Outcome {
+    let mut o = Outcome::default();
+    match r {
+        Err(e) => o.items.push(Err(short_err(&e))),
+        Ok(it) => {
+            for x in it.take(64) {
+                o.push(x);
+            }
+        }
+    }
+    o
+}
+
+fn any_outcome(r: pgp::errors::Result<(Any<'_>, pgp::armor::Headers)>) -> Outcome {
+    let mut o = Outcome::default();
+    match r {
+        Err(e) => o.items.push(Err(short_err(&e))),
+        Ok((a, _)) => match a {
+            Any::PublicKey(k) => o.push_pkts(Ok(obj_packets(&k))),
+            Any::SecretKey(k) => o.push_pkts(Ok(obj_packets(&k))),
+            Any::Signature(s) => o.push_pkts(Ok(obj_packets(&s))),
+            Any::Cleartext(c) => o.push_pkts(Ok(cleartext_packets(&c))),
+            Any::Message(_) => o.items.push(Err("Any: parsed as a message".into())),
+        },
+    }
+    o
+}
+
+type EntryFn = Box<dyn Fn(&[u8], &str, Rd) -> Outcome>;
+
+struct Entry {
+    name: String,
+    /// hands out the first object only
+    single: bool,
+    run: EntryFn,
+}
+
+fn ent(tn: &str, name: &str, single: bool, run: EntryFn) -> Entry {
+    Entry { name: format!("{tn}::{name}"), single, run }
+}
+
+/// buffer size for the armored BufRead entry points (the armor reader wants whole lines)
+fn armor_cap(rd: Rd) -> usize {
+    match rd {
+        Rd::Slice => 8192,
+        Rd::Buf(c) => c.max(512),
+    }
+}
+
+/// every provided method of `Deserializable` that reads from memory
+fn std_entries<T: Deserializable + Serialize + 'static>(tn: &str) -> Vec<Entry> {
+    vec![
+        ent(tn, "from_bytes", true, Box::new(|b: &[u8], _a: &str, rd: Rd| match rd {
+            Rd::Slice => one(T::from_bytes(b)),
+            Rd::Buf(c) => one(T::from_bytes(BufReader::with_capacity(c, b))),
+        })),
+        ent(tn, "from_bytes_many", false, Box::new(|b: &[u8], _a: &str, rd: Rd| match rd {
+            Rd::Slice => many(T::from_bytes_many(b)),
+            Rd::Buf(c) => many(T::from_bytes_many(BufReader::with_capacity(c, b))),
+        })),
+        ent(tn, "from_reader_single(binary)", true, Box::new(|b: &[u8], _a: &str, _rd: Rd| one(T::from_reader_single(b).map(|x| x.0)))),
+        ent(tn, "from_reader_single_buf(binary)", true, Box::new(|b: &[u8], _a: &str, rd: Rd| match rd {
+            Rd::Slice => one(T::from_reader_single_buf(b).map(|x| x.0)),
+            Rd::Buf(c) => one(T::from_reader_single_buf(BufReader::with_capacity(c, b)).map(|x| x.0)),
+        })),
+        ent(tn, "from_reader_many(binary)", false, Box::new(|b: &[u8], _a: &str, _rd: Rd| many(T::from_reader_many(b).map(|x| x.0)))),
+        ent(tn, "from_reader_many_buf(binary)", false, Box::new(|b: &[u8], _a: &str, rd: Rd| match rd {
+            Rd::Slice => many(T::from_reader_many_buf(b).map(|x| x.0)),
+            Rd::Buf(c) => many(T::from_reader_many_buf(BufReader::with_capacity(c, b)).map(|x| x.0)),
+        })),
+        ent(tn, "from_armor_single", true, Box::new(|_b: &[u8], a: &str, _rd: Rd| one(T::from_armor_single(a.as_bytes()).map(|x| x.0)))),
+        ent(tn, "from_armor_single_buf", true, Box::new(|_b: &[u8], a: &str, rd: Rd| {
+            one(T::from_armor_single_buf(BufReader::with_capacity(armor_cap(rd), a.as_bytes())).map(|x| x.0))
+        })),
+        ent(tn, "from_armor_many", false, Box::new(|_b: &[u8], a: &str, _rd: Rd| many(T::from_armor_many(a.as_bytes()).map(|x| x.0)))),
+        ent(tn, "from_armor_many_buf", false, Box::new(|_b: &[u8], a: &str, rd: Rd| {
+            many(T::from_armor_many_buf(BufReader::with_capacity(armor_cap(rd), a.as_bytes())).map(|x| x.0))
+        })),
+        ent(tn, "from_string", true, Box::new(|_b: &[u8], a: &str, _rd: Rd| one(T::from_string(a).map(|x| x.0)))),
+        ent(tn, "from_string_many", false, Box::new(|_b: &[u8], a: &str, _rd: Rd| many(T::from_string_many(a).map(|x| x.0)))),
+        ent(tn, "from_reader_single(armored)", true, Box::new(|_b: &[u8], a: &str, _rd: Rd| one(T::from_reader_single(a.as_bytes()).map(|x| x.0)))),
+        ent(tn, "from_reader_many(armored)", false, Box::new(|_b: &[u8], a: &str, _rd: Rd| many(T::from_reader_many(a.as_bytes()).map(|x| x.0)))),
+    ]
+}
+
+fn pos_entries() -> Vec<Entry> {
+    let tn = "PublicOrSecret";
+    vec![
+        ent(tn, "from_bytes_many", false, Box::new(|b: &[u8], _a: &str, rd: Rd| match rd {
+            Rd::Slice => many(PublicOrSecret::from_bytes_many(b)),
+            Rd::Buf(c) => many(PublicOrSecret::from_bytes_many(BufReader::with_capacity(c, b))),
+        })),
+        ent(tn, "from_reader_many(binary)", false, Box::new(|b: &[u8], _a: &str, _rd: Rd| many(PublicOrSecret::from_reader_many(b).map(|x| x.0)))),
+        ent(tn, "from_reader_many_buf(binary)", false, Box::new(|b: &[u8], _a: &str, rd: Rd| match rd {
+            Rd::Slice => many(PublicOrSecret::from_reader_many_buf(b).map(|x| x.0)),
+            Rd::Buf(c) => many(PublicOrSecret::from_reader_many_buf(BufReader::with_capacity(c, b)).map(|x| x.0)),
+        })),
+        ent(tn, "from_armor_many", false, Box::new(|_b: &[u8], a: &str, _rd: Rd| many(PublicOrSecret::from_armor_many(a.as_bytes()).map(|x| x.0)))),
+        ent(tn, "from_armor_many_buf", false, Box::new(|_b: &[u8], a: &str, rd: Rd| {
+            many(PublicOrSecret::from_armor_many_buf(BufReader::with_capacity(armor_cap(rd), a.as_bytes())).map(|x| x.0))
+        })),
+        ent(tn, "from_reader_many(armored)", false, Box::new(|_b: &[u8], a: &str, _rd: Rd| many(PublicOrSecret::from_reader_many(a.as_bytes()).map(|x| x.0)))),
+    ]
+}
+
+fn any_entries(what: &str) -> Vec<Entry> {
+    let tn = format!("Any[{what}]");
+    vec![
+        ent(&tn, "from_string", true, Box::new(|_b: &[u8], a: &str, _rd: Rd| any_outcome(Any::from_string(a)))),
+        ent(&tn, "from_armor", true, Box::new(|_b: &[u8], a: &str, _rd: Rd| any_outcome(Any::from_armor(a.as_bytes())))),
+        ent(&tn, "from_armor_buf", true, Box::new(|_b: &[u8], a: &str, rd: Rd| any_outcome(Any::from_armor_buf(BufReader::with_capacity(armor_cap(rd), a.as_bytes()))))),
+    ]
+}
+
+fn cleartext_outcome(r: pgp::errors::Result<(CleartextSignedMessage, pgp::armor::Headers)>) -> Outcome {
+    let mut o = Outcome::default();
+    o.push_pkts(r.map(|(c, _)| cleartext_packets(&c)).map_err(|e| short_err(&e)));
+    o
+}
+
+fn cleartext_entries() -> Vec<Entry> {
+    let tn = "CleartextSignedMessage";
+    let mut v = vec![
+        ent(tn, "from_string", true, Box::new(|_b: &[u8], a: &str, _rd: Rd| cleartext_outcome(CleartextSignedMessage::from_string(a)))),
+        ent(tn, "from_armor", true, Box::new(|_b: &[u8], a: &str, _rd: Rd| cleartext_outcome(CleartextSignedMessage::from_armor(a.as_bytes())))),
+        ent(tn, "from_armor_buf", true, Box::new(|_b: &[u8], a: &str, rd: Rd| {
+            cleartext_outcome(CleartextSignedMessage::from_armor_buf(BufReader::with_capacity(armor_cap(rd), a.as_bytes()), Default::default()))
+        })),
+    ];
+    v.extend(any_entries("cleartext"));
+    v
+}
+
+#[derive(Clone, Copy)]
+enum MsgKind<'k> {
+    Signed(&'k SignedPublicKey),
+    Password,
+    Plain,
+}
+
+/// what a reader of the message has to do to get at the (authenticated) payload
+fn consume_message(mut m: Message<'_>, kind: MsgKind) -> Result<Vec<u8>, String> {
+    if let MsgKind::Password = kind {
+        m = m.decrypt_with_password(&"pw".into()).map_err(|e| format!("decrypt: {e}"))?;
+    }
+    let mut depth = 0;
+    while m.is_compressed() {
+        m = m.decompress().map_err(|e| format!("decompress: {e}"))?;
+        depth += 1;
+        if depth > 4 {
+            return Err("nested too deep".into());
+        }
+    }
+    let d = m.as_data_vec().map_err(|e| format!("read: {e}"))?;
+    if let MsgKind::Signed(k) = kind {
+        m.verify(&k.primary_key).map_err(|e| format!("verify: {e}"))?;
+    }
+    Ok(d)
+}
+
+const MSG_ENTRIES: [&str; 8] = [
+    "Message::from_bytes",
+    "Message::from_armor",
+    "Message::from_string",
+    "Message::from_reader(binary)",
+    "Message::from_reader(armored)",
+    "Any[message]::from_string",
+    "Any[message]::from_armor",
+    "Any[message]::from_armor_buf",
+];
+
+fn run_msg_entry(e: usize, bin: &[u8], text: &str, rd: Rd, kind: MsgKind) -> Result<Vec<u8>, String> {
+    let pe = |e: pgp::errors::Error| format!("parse: {}", short_err(&e));
+    let from_any = |r: pgp::errors::Result<(Any<'_>, pgp::armor::Headers)>| match r.map_err(pe)? {
+        (Any::Message(m), _) => consume_message(m, kind),
+        _ => Err("Any: not a message".to_string()),
+    };
+    match e {
+        0 => match rd {
+            Rd::Slice => consume_message(Message::from_bytes(bin).map_err(pe)?, kind),
+            Rd::Buf(c) => consume_message(Message::from_bytes(BufReader::with_capacity(c, bin)).map_err(pe)?, kind),
+        },
+        1 => consume_message(Message::from_armor(BufReader::with_capacity(armor_cap(rd), text.as_bytes())).map_err(pe)?.0, kind),
+        2 => consume_message(Message::from_string(text).map_err(pe)?.0, kind),
+        3 => match rd {
+            Rd::Slice => consume_message(Message::from_reader(bin).map_err(pe)?.0, kind),
+            Rd::Buf(c) => consume_message(Message::from_reader(BufReader::with_capacity(c, bin)).map_err(pe)?.0, kind),
+        },
+        4 => consume_message(Message::from_reader(BufReader::with_capacity(armor_cap(rd), text.as_bytes())).map_err(pe)?.0, kind),
+        5 => from_any(Any::from_string(text)),
+        6 => from_any(Any::from_armor(text.as_bytes())),
+        _ => from_any(Any::from_armor_buf(BufReader::with_capacity(armor_cap(rd), text.as_bytes()))),
+    }
+}
+
+enum IcKind {
+    /// composed objects that serialise back to their packets
+    Objects(Vec<Entry>),
+    Message { payload: Vec<u8>, signer: Option<usize>, password: bool },
+}
+
+struct IcObj {
+    class: &'static str,
+    name: String,
+    /// armor label; None: the stream is the signature block of a cleartext signed document
+    label: Option<&'static str>,
+    /// (tag, body, object index)
+    pkts: Vec<(u8, Vec<u8>, usize)>,
+    kind: IcKind,
+    /// a Marker in front and a Padding packet behind are skipped by the parser (extra variant)
+    skippable_variant: bool,
+    /// every offset also in the quick tier
+    small: bool,
+}
+
+fn ic_text(label: Option<&'static str>, data: &[u8], variant: usize) -> String {
+    let le = if variant % 3 == 2 { "\r\n" } else { "\n" };
+    match label {
+        Some(l) => rfc::armor::armor_encode(l, &[], data, variant % 2 == 0, le),
+        None => {
+            let mut s = String::from("-----BEGIN PGP SIGNED MESSAGE-----\nHash: SHA256\n\nframing test\n- dashed line\n");
+            s.push_str(&rfc::armor::armor_encode("PGP SIGNATURE", &[], data, variant % 2 == 0, "\n"));
+            s
+        }
+    }
+}
+
+fn lib_packets(ctx: &mut Ctx, what: &str, bytes: &[u8], obj: usize) -> Option<Vec<(u8, Vec<u8>, usize)>> {
+    match deframe(bytes) {
+        Ok(p) => Some(p.into_iter().map(|r| (r.tag, r.body, obj)).collect()),
+        Err(e) => {
+            ctx.inconclusive(format!("IC: reference cannot deframe {what}: {e}"));
+            None
+        }
+    }
+}
+
+fn ic_objects(ctx: &mut Ctx) -> (Vec<IcObj>, Vec<SignedPublicKey>) {
+    let specs = [
+        zoo::Spec::simple(false, zoo::Alg::Ed25519Legacy, Some(zoo::Alg::EcdhCv25519)),
+        zoo::Spec::simple(true, zoo::Alg::Ed25519, Some(zoo::Alg::X25519)),
+        zoo::Spec::simple(false, zoo::Alg::EcdsaP256, Some(zoo::Alg::EcdhP256)),
+        zoo::Spec::simple(false, zoo::Alg::Rsa2048, Some(zoo::Alg::Rsa2048)),
+    ];
+    let mut objs = vec![];
+    let mut pubs = vec![];
+    let mut tpks = vec![];
+    let mut tsks = vec![];
+    let mut sigs: Vec<(u8, Vec<u8>, usize)> = vec![];
+    let payload = pat(1500, 17);
+    for (ki, spec) in specs.iter().enumerate() {
+        let key = zoo::key(spec, 0);
+        let pubkey = key.to_public_key();
+        let small = ki < 2;
+        let kn = spec.name();
+        let tpk = pubkey.to_bytes().ok().and_then(|b| lib_packets(ctx, "a certificate", &b, 0)).unwrap_or_default();
+        let tsk = key.to_bytes().ok().and_then(|b| lib_packets(ctx, "a secret key", &b, 0)).unwrap_or_default();
+        let mut e = std_entries::<SignedPublicKey>("SignedPublicKey");
+        e.extend(pos_entries());
+        e.extend(any_entries("public key"));
+        objs.push(IcObj { class: "certificate", name: format!("certificate {kn}"), label: Some("PGP PUBLIC KEY BLOCK"), pkts: tpk.clone(), kind: IcKind::Objects(e), skippable_variant: true, small });
+        let mut e = std_entries::<SignedSecretKey>("SignedSecretKey");
+        e.extend(pos_entries());
+        e.extend(any_entries("secret key"));
+        objs.push(IcObj { class: "secret-key", name: format!("secret key {kn}"), label: Some("PGP PRIVATE KEY BLOCK"), pkts: tsk.clone(), kind: IcKind::Objects(e), skippable_variant: true, small });
+        // a detached signature by this key
+        match DetachedSignature::sign_binary_data(ctx_rng(40 + ki as u64), &key.primary_key, &Password::empty(), HashAlgorithm::Sha256, &payload[..]) {
+            Ok(s) => {
+                if let Some(p) = s.to_bytes().ok().and_then(|b| lib_packets(ctx, "a signature", &b, sigs.len())) {
+                    sigs.extend(p);
+                }
+            }
+            Err(e) => ctx.inconclusive(format!("IC: cannot make a detached signature: {e}")),
+        }
+        // messages
+        if ki < 2 {
+            let mut b = MessageBuilder::from_bytes("", payload.clone());
+            b.sign(&key.primary_key, Password::empty(), HashAlgorithm::Sha256);
+            match b.to_vec(ctx_rng(50 + ki as u64)) {
+                Ok(v) => {
+                    if let Some(p) = lib_packets(ctx, "a signed message", &v, 0) {
+                        // the same, inside a compressed packet (algorithm 0: framing only)
+                        let mut cbody = vec![0u8];
+                        for (t, b, _) in &p {
+                            cbody.extend(frame(*t, b, &LenForm::NewMin).unwrap_or_default());
+                        }
+                        objs.push(IcObj { class: "message-signed", name: format!("signed message {kn}"), label: Some("PGP MESSAGE"), pkts: p, kind: IcKind::Message { payload: payload.clone(), signer: Some(ki), password: false }, skippable_variant: false, small: false });
+                        objs.push(IcObj { class: "message-compressed-signed", name: format!("compressed signed message {kn}"), label: Some("PGP MESSAGE"), pkts: vec![(8, cbody, 0)], kind: IcKind::Message { payload: payload.clone(), signer: Some(ki), password: false }, skippable_variant: false, small: false });
+                    }
+                }
+                Err(e) => ctx.inconclusive(format!("IC: cannot build signed message: {e}")),
+            }
+            let mut rng = ctx_rng(60 + ki as u64);
+            let s2k = StringToKey::new_iterated(&mut rng, Default::default(), 2);
+            let r = if spec.v6 {
+                let mut b = MessageBuilder::from_bytes("", payload.clone()).seipd_v2(&mut rng, SymmetricKeyAlgorithm::AES128, AeadAlgorithm::Ocb, ChunkSize::C256B);
+                b.encrypt_with_password(ctx_rng(61), s2k, &"pw".into())
+                    .and_then(|b| b.encrypt_to_key(ctx_rng(62), &pubkey.public_subkeys[0]).map(|_| ()))
+                    .and_then(|_| b.to_vec(&mut rng))
+            } else {
+                let mut b = MessageBuilder::from_bytes("", payload.clone()).seipd_v1(&mut rng, SymmetricKeyAlgorithm::AES128);
+                b.encrypt_with_password(s2k, &"pw".into())
+                    .and_then(|b| b.encrypt_to_key(ctx_rng(62), &pubkey.public_subkeys[0]).map(|_| ()))
+                    .and_then(|_| b.to_vec(&mut rng))
+            };
+            match r {
+                Ok(v) => {
+                    if let Some(p) = lib_packets(ctx, "an encrypted message", &v, 0) {
+                        objs.push(IcObj { class: "message-encrypted", name: format!("encrypted message {kn}"), label: Some("PGP MESSAGE"), pkts: p, kind: IcKind::Message { payload: payload.clone(), signer: None, password: true }, skippable_variant: false, small: false });
+                    }
+                }
+                Err(e) => ctx.inconclusive(format!("IC: cannot build encrypted message: {e}")),
+            }
+        }
+        pubs.push(pubkey);
+        tpks.push(tpk);
+        tsks.push(tsk);
+    }
+    // a plain literal message
+    objs.push(IcObj { class: "message-literal", name: "literal message".into(), label: Some("PGP MESSAGE"), pkts: vec![(11, literal_body(b"", &payload), 0)], kind: IcKind::Message { payload: payload.clone(), signer: None, password: false }, skippable_variant: false, small: false });
+    // key rings
+    let ring = |a: &[(u8, Vec<u8>, usize)], b: &[(u8, Vec<u8>, usize)]| -> Vec<(u8, Vec<u8>, usize)> {
+        a.iter().cloned().chain(b.iter().map(|(t, x, _)| (*t, x.clone(), 1))).collect()
+    };
+    let mut e = std_entries::<SignedPublicKey>("SignedPublicKey");
+    e.extend(pos_entries());
+    objs.push(IcObj { class: "ring-public", name: "ring of two certificates".into(), label: Some("PGP PUBLIC KEY BLOCK"), pkts: ring(&tpks[0], &tpks[1]), kind: IcKind::Objects(e), skippable_variant: true, small: true });
+    let mut e = std_entries::<SignedSecretKey>("SignedSecretKey");
+    e.extend(pos_entries());
+    objs.push(IcObj { class: "ring-secret", name: "ring of two secret keys".into(), label: Some("PGP PRIVATE KEY BLOCK"), pkts: ring(&tsks[1], &tsks[0]), kind: IcKind::Objects(e), skippable_variant: true, small: true });
+    objs.push(IcObj { class: "ring-mixed", name: "ring of a secret key and a certificate".into(), label: Some("PGP PRIVATE KEY BLOCK"), pkts: ring(&tsks[0], &tpks[2]), kind: IcKind::Objects(pos_entries()), skippable_variant: true, small: true });
+    // detached signatures: one, and several in one stream
+    if !sigs.is_empty() {
+        let mut e = std_entries::<DetachedSignature>("DetachedSignature");
+        e.extend(any_entries("signature"));
+        objs.push(IcObj { class: "signature", name: "one detached signature".into(), label: Some("PGP SIGNATURE"), pkts: sigs[..1].to_vec(), kind: IcKind::Objects(e), skippable_variant: true, small: true });
+        let mut e = std_entries::<DetachedSignature>("DetachedSignature");
+        e.extend(any_entries("signature"));
+        objs.push(IcObj { class: "signatures", name: format!("{} detached signatures", sigs.len()), label: Some("PGP SIGNATURE"), pkts: sigs.clone(), kind: IcKind::Objects(e), skippable_variant: true, small: true });
+        // in a cleartext signed document all signatures belong to the one object
+        let all0: Vec<_> = sigs.iter().map(|(t, b, _)| (*t, b.clone(), 0)).collect();
+        objs.push(IcObj { class: "cleartext-signatures", name: "signature block of a cleartext signed message".into(), label: None, pkts: all0, kind: IcKind::Objects(cleartext_entries()), skippable_variant: false, small: true });
+    }
+    (objs, pubs)
+}
+
+fn ic_case(ctx: &mut Ctx, obj: &IcObj, pubs: &[SignedPublicKey], oi: usize, variant: usize, skippable: bool, slice: (usize, usize)) {
+    let mut pkts = obj.pkts.clone();
+    if pkts.is_empty() {
+        return;
+    }
+    if skippable {
+        // the Padding packet behind is its own "object": a single-object entry point need not read it
+        let last_obj = pkts.last().map(|p| p.2).unwrap_or(0);
+        pkts.insert(0, (10, b"PGP".to_vec(), 0));
+        pkts.push((21, pat(70 + 150 * (variant % 2), 5), last_obj + 1));
+    }
+    let forms: Vec<LenForm> = pkts.iter().enumerate().map(|(i, (t, b, _))| rotate_form(*t, b.len(), variant + i, false)).collect();
+    let Some(laid) = lay_out(&pkts, &forms) else {
+        ctx.inconclusive("IC: reference framer refused a form");
+        return;
+    };
+    let used: Vec<&'static str> = laid.pk.iter().map(|p| p.form).collect();
+    let n = laid.stream.len();
+    let all = obj.small || !ctx.quick();
+    let mut offs = laid.cut_offsets(all, &mut ctx.rng("IC.offsets", (oi * 64 + variant) as u64));
+    offs.push(n);
+    let want_upto = |k: usize, only_obj0: bool| -> Pkts {
+        pkts[..k].iter().filter(|p| !skipped(p.0) && (!only_obj0 || p.2 == 0)).map(|p| (p.0, p.1.clone())).collect()
+    };
+    let class = obj.class;
+    for (ci, c) in offs.iter().enumerate() {
+        // long streams are spread over several cases (interleaved offsets)
+        if ci % slice.1 != slice.0 {
+            continue;
+        }
+        let cut = laid.classify(*c);
+        let bin = &laid.stream[..*c];
+        // the reference decides what the cut stream is
+        let ref_ok = deframe(bin).is_ok();
+        let ref_expected = !matches!(cut, Cut::Header(_) | Cut::Body(_));
+        if ref_ok != ref_expected {
+            ctx.inconclusive(format!("IC generator: reference deframer disagrees with the layout ({cut:?})"));
+            continue;
+        }
+        let text = ic_text(obj.label, bin, variant);
+        let (k, wher) = match cut {
+            Cut::Boundary(k) => (k, "boundary"),
+            Cut::Header(k) => (k, "header"),
+            Cut::Body(k) => (k, "body"),
+            Cut::Uncut => (pkts.len(), "uncut"),
+        };
+        if let Some(p) = laid.pk.get(k) {
+            ctx.seen("IC.cells(tag-class,form,cut)", format!("{}:{}:{}", tag_class(p.tag), p.form, wher));
+            ctx.seen("IC.cut_tags", format!("{}", p.tag));
+        }
+        ctx.tally(&format!("IC.cuts.{wher}"), 1);
+        ctx.cover(&("IC", oi, variant, skippable, *c));
+        let where_text = match laid.pk.get(k) {
+            Some(p) if wher == "body" => format!("inside packet {k} (tag {}, {}, {} of {} body octets present)", p.tag, p.form, c - p.body, p.end - p.body),
+            Some(p) if wher == "header" => format!("inside the header of packet {k} (tag {}, {})", p.tag, p.form),
+            Some(p) => format!("on the boundary in front of packet {k} (tag {})", p.tag),
+            None => "not at all".to_string(),
+        };
+        match &obj.kind {
+            IcKind::Objects(entries) => {
+                for (ei, entry) in entries.iter().enumerate() {
+                    let rd = RDS[(ci + ei) % RDS.len()];
+                    let replay = || json!({"family": "IC", "object": obj.name, "entry": entry.name, "forms": used, "cut": c, "of": n, "reader": format!("{rd:?}"), "input": hexs(bin), "armored": text});
+                    let Some(out) = ctx.guarded("C17/composed-cut", replay, || (entry.run)(bin, &text, rd)) else { continue };
+                    ctx.eval();
+                    ctx.seen("IC.entries", entry.name.clone());
+                    if let Some(why) = &out.bad_rewrite {
+                        ctx.violation(format!("C17/composed-cut/rewrite/{class}"), format!("{}: {why}", entry.name), replay());
+                    }
+                    let got = out.ok_packets();
+                    match cut {
+                        Cut::Uncut => {
+                            let want = want_upto(pkts.len(), entry.single);
+                            if out.has_err() {
+                                ctx.violation(format!("C17/composed-cut/rejects-legal/{class}"), format!("{} on the complete {} (packet framings {used:?}): {}", entry.name, obj.name, out.short()), replay());
+                            } else if got != want {
+                                ctx.violation(format!("C17/composed-cut/differs/{class}"), format!("{} on the complete {} (packet framings {used:?}): {} packets expected, got {}", entry.name, obj.name, want.len(), out.short()), replay());
+                            }
+                        }
+                        _ => {
+                            let demanded = !entry.single || laid.pk[k].obj == 0;
+                            if wher == "body" && demanded && !out.has_err() {
+                                ctx.violation(
+                                    format!("C17/composed-cut/accepted/{class}"),
+                                    format!(
+                                        "{}: the {} ({} packets, {n} octets, framings {used:?}) cut at offset {c}, {where_text}: no error, returned [{}]; the body of packet {k} is shorter than its declared length, the uncut stream gives {} packets",
+                                        entry.name, obj.name, pkts.len(), out.short(), want_upto(pkts.len(), entry.single).len()
+                                    ),
+                                    replay(),
+                                );
+                            }
+                            if wher == "header" {
+                                ctx.tally(if out.has_err() { "IC.header_cut.error" } else { "IC.header_cut.silent" }, 1);
+                            }
+                            if !is_subsequence(&got, &want_upto(k, false)) {
+                                ctx.violation(
+                                    format!("C17/composed-cut/foreign-packet/{class}"),
+                                    format!("{}: the {} cut at offset {c}, {where_text}: returned [{}], which holds a packet that is not one of the {k} complete packets in front of the cut", entry.name, obj.name, out.short()),
+                                    replay(),
+                                );
+                            }
+                        }
+                    }
+                }
+            }
+            IcKind::Message { payload, signer, password } => {
+                let kind = match (signer, password) {
+                    (Some(i), _) => MsgKind::Signed(&pubs[*i]),
+                    (None, true) => MsgKind::Password,
+                    _ => MsgKind::Plain,
+                };
+                for (ei, ename) in MSG_ENTRIES.iter().enumerate() {
+                    let rd = RDS[(ci + ei) % RDS.len()];
+                    let replay = || json!({"family": "IC", "object": obj.name, "entry": ename, "forms": used, "cut": c, "of": n, "reader": format!("{rd:?}"), "input": hexs(bin), "armored": text});
+                    let Some(r) = ctx.guarded("C17/composed-cut", replay, || run_msg_entry(ei, bin, &text, rd, kind)) else { continue };
+                    ctx.eval();
+                    ctx.seen("IC.entries", *ename);
+                    match (cut, r) {
+                        (Cut::Uncut, Err(e)) => ctx.violation(format!("C17/composed-cut/rejects-legal/{class}"), format!("{ename} on the complete {} (packet framings {used:?}): {e}", obj.name), replay()),
+                        (Cut::Uncut, Ok(d)) => {
+                            if &d != payload {
+                                ctx.violation(format!("C17/composed-cut/differs/{class}"), format!("{ename} on the complete {} (packet framings {used:?}): {} octets read, payload has {}", obj.name, d.len(), payload.len()), replay());
+                            }
+                        }
+                        (Cut::Body(_), Ok(d)) => ctx.violation(
+                            format!("C17/composed-cut/accepted/{class}"),
+                            format!("{ename}: the {} ({} packets, {n} octets, framings {used:?}) cut at offset {c}, {where_text}: parsed, read ({} octets) and checked without any error", obj.name, pkts.len(), d.len()),
+                            replay(),
+                        ),
+                        (_, Ok(d)) => {
+                            if !payload.starts_with(&d) {
+                                ctx.violation(format!("C17/composed-cut/foreign-packet/{class}"), format!("{ename}: the {} cut at offset {c}, {where_text}: read {} octets that are not a prefix of the payload", obj.name, d.len()), replay());
+                            }
+                            if wher == "header" {
+                                ctx.tally("IC.header_cut.silent", 1);
+                            }
+                        }
+                        (_, Err(_)) => {
+                            if wher == "header" {
+                                ctx.tally("IC.header_cut.error", 1);
+                            }
+                        }
+                    }
+                }
+            }
+        }
+    }
+    if oi == 0 && variant == 1 && slice.0 == 0 {
+        let c = laid.pk.get(2).map(|p| p.body + 3).unwrap_or(0).min(n);
+        ctx.sample(json!({"family": "IC", "object": obj.name, "forms": used, "cut": c, "of": n, "input": hexs(&laid.stream[..c]), "expected": "error from every composed parser"}));
+    }
+}
+
+fn family_ic(ctx: &mut Ctx) {
+    // the number and order of cases does not depend on the objects' contents
+    let (objs, pubs) = ic_objects(ctx);
+    for o in &objs {
+        ctx.seen("IC.objects", o.class);
+    }
+    let nv = ctx.qt(7usize, 14usize);
+    for (oi, obj) in objs.iter().enumerate() {
+        // every offset of a long stream through all entry points is too much for one case
+        let slices = if ctx.quick() || obj.small { 1 } else { 8 };
+        for variant in 0..nv + usize::from(obj.skippable_variant) {
+            for sl in 0..slices {
+                if !ctx.mine() {
+                    continue;
+                }
+                describe_case(&format!("IC: {} variant {variant} offsets {sl} mod {slices}", obj.name));
+                ic_case(ctx, obj, &pubs, oi, variant % nv, variant >= nv, (sl, slices));
+            }
+        }
+    }
+}
+
+// ------------------------------------------------------------------------------------------------
 // Family W: everything MessageBuilder writes is deframed by the reference
 
 #[derive(Clone, Copy, Debug, PartialEq, Eq, Hash)]
@@ -1895,5 +2634,6 @@ pub fn run(ctx: &mut Ctx) {
     family_rm(ctx);
     family_rz(ctx);
     family_illegal(ctx);
+    family_ic(ctx);
     family_writer(ctx);
 }
